@@ -21,9 +21,9 @@ def clientCallSites : List CallSite := [
 ]
 
 /-- internal/abmf/abmf.go: SendAccountDebitRequest / HandleCCA; internal/context: the sm.Client in field "AbmfClient"; serial: no call site above is async -/
-def abmfClient : Cfg := ⟨true, true, true, true, 5000, false, true, 0, true⟩
+def abmfClient : Cfg := ⟨true, true, true, true, 5000, false, true, 0, true, true⟩
 
 /-- internal/rating/rating.go: SendServiceUsageRequest / HandleSUA; internal/context: the sm.Client in field "RatingClient"; serial: no call site above is async -/
-def ratingClient : Cfg := ⟨true, true, true, true, 5000, false, true, 0, true⟩
+def ratingClient : Cfg := ⟨true, true, true, true, 5000, false, true, 0, true, true⟩
 
 end Chf.Gen
